@@ -354,6 +354,8 @@ func c19Specs(quick bool) []*wSpec {
 			// more than 200 outputs on ONE keyset (three restore batches), restore, go on, restore again (probe)
 			{Prop: "C19", Name: "C19-three-batches-q", Cfg: two, Init: c19ThreeBatches(), Menu: func(*wworld.World) []string { return nil }, Probe: c19Probe(false), Depth: 0, NoInvariants: true},
 			{Prop: "C19", Name: "C19-crossmint-p2pk-q", Cfg: crossMintCfg, Init: []string{"mint|2|16", "mint|0|8"}, Menu: crossMintP2PKMenu, Probe: c19Probe(false), Depth: 3, NoInvariants: true},
+			// ... the same with a mint the wallet already trusts (it has received a plain token from it)
+			{Prop: "C19", Name: "C19-crossmint-trusted-q", Cfg: crossMintCfg, Init: []string{"mint|2|16", "mint|0|8", "sendpk|2|0|2", "recv|0|0|0"}, Menu: crossMintP2PKMenu, Probe: c19Probe(false), Depth: 2, NoInvariants: true},
 			{Prop: "C19", Name: "C19-over300-q", Cfg: two, Init: c19Over300(), Menu: func(*wworld.World) []string { return nil }, Probe: c19Probe(false), Depth: 0, NoInvariants: true},
 			{Prop: "C19", Name: "C19-long-q", Cfg: two, Init: c19LongN(11), Menu: func(*wworld.World) []string { return nil }, Probe: c19Probe(false), Depth: 0, NoInvariants: true},
 		}
